@@ -190,15 +190,27 @@ func structuredOffsets(ends [4]int64, calls []int64, t *tape.Tape) []int64 {
 		j := t.Draw(i + 1)
 		out[i], out[j] = out[j], out[i]
 	}
-	// the header offsets come first in any case
+	// the cut points the property names come first in any case: inside the header, within a byte of each
+	// section boundary, and the last bytes of the file (one byte short of complete)
+	named := func(k int64) bool {
+		if k <= 16 || k >= ends[3]-6 {
+			return true
+		}
+		for _, e := range ends[:3] {
+			if k >= e-1 && k <= e+1 {
+				return true
+			}
+		}
+		return false
+	}
 	front := make([]int64, 0, len(out))
 	for _, k := range out {
-		if k <= 16 {
+		if named(k) {
 			front = append(front, k)
 		}
 	}
 	for _, k := range out {
-		if k > 16 {
+		if !named(k) {
 			front = append(front, k)
 		}
 	}
@@ -233,7 +245,7 @@ type C15 struct {
 func init() { register(&C15{base: base{id: "C15", level: "fault_enumeration"}, dw: -1}) }
 
 func (c *C15) Rule() string {
-	return "one run = one crash point of the write of a real proving-system file in one format: the writer (simdisk) crashes after k bytes so that only the k-byte prefix survives, or reports ENOSPC at k; the prefix is then read back by UnsafeReadFrom through an in-memory reader, a reader with legal short reads, or ReadSystemFromFile on a real prefix file. Run indices first enumerate the structured offsets (every offset of the 8-byte header, the first 256 bytes of and +-4 around each of the pk|vk|cs sections, a window of Write-call boundaries found by a counting writer, the last 6 bytes) for both formats; later runs draw uniform offsets. Oracle: an error, no panic, return within the watchdog. evaluations = prefixes read; non-trivial = 0 < k < file length; distinct = (format, offset)"
+	return "one run = one crash point of the write of a real proving-system file in one format: the writer (simdisk) crashes after k bytes so that only the k-byte prefix survives, or reports ENOSPC at k; the prefix is then read back by UnsafeReadFrom through an in-memory reader, a reader with legal short reads, or ReadSystemFromFile on a real prefix file. Run indices first enumerate the structured offsets, those the property names (header, within a byte of a section boundary, the last six bytes) first, and each structural cut point that the drawn entry point rejects is pushed through the other two as well (every offset of the 8-byte header, the first 256 bytes of and +-4 around each of the pk|vk|cs sections, a window of Write-call boundaries found by a counting writer, the last 6 bytes) for both formats; later runs draw uniform offsets. Oracle: an error, no panic, return within the watchdog. evaluations = prefixes read; non-trivial = 0 < k < file length; distinct = (format, offset)"
 }
 func (c *C15) Assumptions() []string {
 	return []string{"a crash or interrupted copy is modelled as the file truncated to a prefix (what the property quantifies over); torn writes that corrupt bytes inside the prefix are out of its scope"}
@@ -370,9 +382,10 @@ func (c *C15) Run(x *engine.Ctx) *engine.Violation {
 	if ops.Bin() != "" && t.Chance(1, 10) {
 		return c.cliOnPrefix(x, format, prefix, ends)
 	}
-	style := t.Weighted(5, 3, 1)
-	if int64(len(prefix)) > 4<<20 && style == 2 && !t.Chance(1, 4) {
-		style = 0 // large real files only now and then
+	// ReadSystemFromFile on a real file is what every command does; the in-memory readers add short reads
+	style := t.Weighted(4, 3, 3)
+	if int64(len(prefix)) > 4<<20 && style == 2 && !enumerated && t.Chance(1, 2) {
+		style = 0 // bound the I/O volume of the randomly placed cuts; the structural ones always get their file
 	}
 	var cuts []int
 	path := ""
@@ -393,8 +406,10 @@ func (c *C15) Run(x *engine.Ctx) *engine.Violation {
 		x.S.Count("read_via_ReadSystemFromFile")
 	}
 	o := readPrefix(prefix, style, cuts, path)
-	if len(prefix) <= 16 && o.err != nil && o.pan == nil && !o.hang {
-		// header-sized prefixes are cheap: push them through every entry point, not only the drawn one
+	if (len(prefix) <= 16 || enumerated) && o.err != nil && o.pan == nil && !o.hang {
+		// header-sized prefixes are cheap, and the structural cut points (section boundaries, Write-call
+		// boundaries, one byte short of complete) are few: push them through every entry point, not only
+		// the drawn one
 		for alt := 0; alt < 3; alt++ {
 			if alt == style {
 				continue
